@@ -19,8 +19,8 @@ import time
 VERIF = os.path.dirname(os.path.dirname(os.path.abspath(__file__)))
 REPO = os.environ.get("VERIF_REPO", "/repo")
 SRC = os.path.join(REPO, "src", "libsodium")
-WORK = os.path.join(VERIF, "work")
-REPLAY_OUT = os.path.join(VERIF, "replay", "out")
+WORK = os.environ.get("VERIF_WORK", os.path.join(VERIF, "work"))
+REPLAY_OUT = os.environ.get("VERIF_REPLAY_OUT", os.path.join(VERIF, "replay", "out"))
 SHIMS = os.path.join(VERIF, "bin", "solver-shims")
 
 # defines that select code CBMC cannot model (assembly) - always removed in the verified configuration
